@@ -24,6 +24,11 @@ TOL = 1e-10
 BATCH = 12
 
 
+# coefficient atoms that only the compiled route can decide (operator precedence / folding of the emitted text):
+# always part of the quick selection (2D, u*v)
+MUST_ATOMS = ("quot-prod", "fm2", "sub-neg", "sub-divm1", "near1", "div-nearm1", "tiny", "sub-tiny", "mirror-sub", "mirror-div")
+
+
 def select_programs(tier):
     progs = vgen.all_programs(dims=(1, 2, 3))
     out = []
@@ -47,7 +52,9 @@ def select_programs(tier):
             stride = {"bilin": 12, "coef": 14}.get(fam, 4)
         if fam == "bdry" and d == 2:
             stride = 2
-        if (n - 1) % stride == 0:
+        parts = p["tag"].split(":")
+        must = fam == "coef" and d == 2 and not p.get("spacetime") and parts[2] in MUST_ATOMS and parts[3] == "w*w"
+        if (n - 1) % stride == 0 or must:
             out.append(p)
     return out
 
